@@ -187,3 +187,13 @@ package main
 //@   prop C17
 //@   nosafety registry entries are non-nil
 //@   loop 1 body @one-line-per-registered-checker emitted(fmtprinted) == old(emitted(fmtprinted)) + 1
+
+// the CLI splits its -enable / -disable values exactly like the analyzer front-end (items are TrimSpace'd)
+//@ func splitList
+//@   prop C06 C08
+//@   fresh
+//@   assigns nothing
+//@   ensures @split-trim len(result) == splitLen(s, ",") && (forall k int :: (0 <= k && k < len(result)) ==> result[k] == keyAt(s, k))
+//@   loop 1 invariant @len-fixed len(parts) == splitLen(s, ",")
+//@   loop 1 invariant @done-prefix forall k int :: (0 <= k && k < $i) ==> parts[k] == keyAt(s, k)
+//@   loop 1 invariant @todo-suffix forall k int :: ($i <= k && k < len(parts)) ==> parts[k] == splitAt(s, ",", k)
